@@ -54,7 +54,7 @@ PROPERTIES = {
     },
     "C04": {
         "runs": {
-            "quick": [H("HarnessC04a", b(K=4, NOPS=3), sample_every=200), H("HarnessC04a", b(K=3, NOPS=3, BF=3))] + [H("HarnessC04b", b(N=5, K=1, NOPS=2, HREQ=2, LPAT=p)) for p in (18, 6, 19, 63)],
+            "quick": [H("HarnessC04a", b(K=4, NOPS=3), sample_every=200), H("HarnessC04a", b(K=3, NOPS=3, BF=3))] + [H("HarnessC04b", b(N=5, K=1, NOPS=2, HREQ=2, LPAT=p)) for p in (18, 6, 19, 63)] + [H("HarnessC04b", b(N=17, K=1, NOPS=2, Lmax=4, LRULER=1, CONCRETEKEYS=1), sample_every=10, max_steps=30000000)],
             "thorough": [H("HarnessC04b", b(N=5, K=1, NOPS=2, HREQ=2), sample_every=500), H("HarnessC04b", b(N=4, K=2, NOPS=2), sample_every=500), H("HarnessC04a", b(K=4, NOPS=3), sample_every=200), H("HarnessC04a", b(K=3, NOPS=4)), H("HarnessC04a", b(K=3, NOPS=3, BF=3))],
         },
         "must_reach": ["C04.height-rule", "C04.same-link"],
@@ -73,7 +73,7 @@ PROPERTIES = {
     },
     "C06": {
         "runs": {
-            "quick": [H("HarnessC06a", b(N=2, K=2, MODE=m)) for m in (0, 1, 2, 3, 4, 5, 6)] + [H("HarnessC06a", b(N=3, K=1, MODE=7))],
+            "quick": [H("HarnessC06a", b(N=2, K=2, MODE=m)) for m in (0, 1, 2, 3, 4, 5, 6)] + [H("HarnessC06a", b(N=3, K=1, MODE=7))] + [H("HarnessC06a", b(N=17, K=1, MODE=1, Lmax=4, LRULER=1, CONCRETEKEYS=1), sample_every=10, max_steps=30000000)],
             "thorough": [H("HarnessC06a", b(N=3, K=2, MODE=m), sample_every=300) for m in (0, 1, 2, 3)] + [H("HarnessC06a", b(N=3, K=3, MODE=m), sample_every=300) for m in (2, 3, 4, 5, 6)] + [H("HarnessC06a", b(N=3, K=2, MODE=7), sample_every=300), H("HarnessC06a", b(N=4, K=1, MODE=7), sample_every=300)] +
                         [H("HarnessC06a", b(N=4, K=1, MODE=m), sample_every=300) for m in (0, 1)],
         },
@@ -117,7 +117,7 @@ PROPERTIES = {
             "quick": [H("HarnessC04a", b(K=4, NOPS=3), sample_every=200), H("HarnessC04a", b(K=4, NOPS=3, CACHE=1), sample_every=200), H("HarnessC04a", b(K=3, NOPS=3, BF=3))] +
                      [H("HarnessC04b", b(N=5, K=1, NOPS=2, HREQ=2, LPAT=p)) for p in (18, 6, 19, 63)] +
                      # scenario-directed: fixed operation sequences through a shared cache (0 insert, 1 delete, 2 persist+reload), keys/values/layers symbolic
-                     [H("HarnessC04a", {**b(K=k, NOPS=3, CACHE=1), "SEQ.h": q}, sample_every=200) for k, q in ((6, 21020), (5, 2102), (7, 201020))],
+                     [H("HarnessC04a", {**b(K=k, NOPS=3, CACHE=1), "SEQ.h": q}, sample_every=200) for k, q in ((6, 21020), (5, 2102), (7, 201020))] + [H("HarnessC04b", b(N=17, K=1, NOPS=2, Lmax=4, LRULER=1, CONCRETEKEYS=1), sample_every=10, max_steps=30000000)],
             "thorough": [H("HarnessC04b", b(N=5, K=1, NOPS=2, HREQ=2), sample_every=500), H("HarnessC04b", b(N=4, K=2, NOPS=2), sample_every=500), H("HarnessC04a", b(K=4, NOPS=3), sample_every=200), H("HarnessC04a", b(K=3, NOPS=3, BF=3))],
         },
         "must_reach": ["C09.layers", "C09.ranges", "C09.no-empty-node", "C09.size"],
@@ -126,7 +126,7 @@ PROPERTIES = {
     },
     "C10": {
         "runs": {
-            "quick": [H("HarnessC10a", b(N=3, S=2, MODE=m)) for m in (0, 1, 2, 3, 4)] + [H("HarnessC10b", b(N=3, MODE=m)) for m in (0, 1, 2, 3)],
+            "quick": [H("HarnessC10a", b(N=3, S=2, MODE=m)) for m in (0, 1, 2, 3, 4)] + [H("HarnessC10b", b(N=3, MODE=m)) for m in (0, 1, 2, 3)] + [H("HarnessC10a", b(N=17, S=3, MODE=1, Lmax=4, LRULER=1, CONCRETEKEYS=1), sample_every=20, max_steps=30000000)],
             "thorough": [H("HarnessC10a", b(N=5, S=3, MODE=m), sample_every=300) for m in (0, 1)] + [H("HarnessC10a", b(N=3, S=5, MODE=0), sample_every=300)] +
                         [H("HarnessC10a", b(N=3, S=2, MODE=m)) for m in (2, 3, 4)] +
                         [H("HarnessC10b", b(N=5, MODE=m), sample_every=300) for m in (0, 1)] + [H("HarnessC10b", b(N=3, MODE=m)) for m in (2, 3, 4)] +
@@ -148,7 +148,7 @@ PROPERTIES = {
     },
     "C13": {
         "runs": {
-            "quick": [H("HarnessC13a", b(N=3, B=1, RELOAD=1))],
+            "quick": [H("HarnessC13a", b(N=3, B=1, RELOAD=1))] + [H("HarnessC13a", b(N=17, B=1, RELOAD=1, ASC=1, Lmax=4, LRULER=1, CONCRETEKEYS=1), sample_every=10, max_steps=30000000)],
             "thorough": [H("HarnessC13a", b(N=3, B=2, RELOAD=1), sample_every=200), H("HarnessC13a", b(N=3, B=1, RELOAD=0)), H("HarnessC13a", b(N=4, B=1, RELOAD=1), sample_every=200)],
         },
         "must_reach": ["C13.written-is-reachable", "C13.rewrite-only-in-range", "C13.write-count", "C13.clean-implies-unchanged"],
@@ -157,7 +157,7 @@ PROPERTIES = {
     },
     "C16": {
         "runs": {
-            "quick": [H("HarnessC16a", b(N=5), sample_every=200), H("HarnessC16a", b(N=4, BF=3))],
+            "quick": [H("HarnessC16a", b(N=5), sample_every=200), H("HarnessC16a", b(N=4, BF=3))] + [H("HarnessC16a", b(N=33, Lmax=5, LRULER=1, CONCRETEKEYS=1), sample_every=20, max_steps=30000000)],
             "thorough": [H("HarnessC16a", b(N=5), sample_every=200), H("HarnessC16a", b(N=4, BF=3))],
         },
         "must_reach": ["C16.get-reads-path", "C16.insert-reads-two-paths", "C16.delete-reads-two-paths", "C16.loadmast-reads-top-only"],
